@@ -406,3 +406,41 @@ func TestVerifReplayPublishedKeys(t *testing.T) {
 		t.Logf("REPLAY-NOT-REPRODUCED")
 	}
 }
+
+// C18: the hidden login_destination input is built as raw markup. Render the real login page for the
+// destination of the model and look at the element the way a browser tokenises it: the attribute value ends
+// at the first double quote; if what follows differs from the fixed `>` the request text supplied markup.
+func TestVerifReplayLoginPageMarkup(t *testing.T) {
+	in := verifReplayInputs(t)
+	dest := verifHex(t, in, "login_destination")
+	state, passwdFile, err := setupValidRuntimeStateSigner(t)
+	if err != nil {
+		t.Fatal(err)
+	}
+	defer os.Remove(passwdFile.Name())
+	if err := state.loadTemplates(); err != nil {
+		t.Fatal(err)
+	}
+	rr := httptest.NewRecorder()
+	state.writeHTMLLoginPage(rr, httptest.NewRequest("GET", "/", nil), 200, "", dest, "")
+	body := rr.Body.String()
+	const open = `NAME="login_destination" VALUE="`
+	i := strings.Index(body, open)
+	if i < 0 {
+		t.Logf("login_destination=%q -> no hidden input in the page (status %d)", dest, rr.Code)
+		t.Logf("REPLAY-NOT-REPRODUCED")
+		return
+	}
+	rest := body[i+len(open):]
+	j := strings.Index(rest, `"`)
+	value, after := rest[:j], rest[j+1:]
+	if k := strings.Index(after, "\n"); k >= 0 {
+		after = after[:k]
+	}
+	t.Logf("login_destination=%q -> attribute value %q followed by %q", dest, value, after)
+	if !strings.HasPrefix(after, ">") || strings.ContainsAny(value, "<>") {
+		t.Logf("REPLAY-CONFIRMED: request text closes the attribute / supplies markup: ...VALUE=\"%s\"%s", value, after)
+	} else {
+		t.Logf("REPLAY-NOT-REPRODUCED")
+	}
+}
